@@ -82,9 +82,11 @@ $(B)/harness/%.o: $(V)/harness/%.c
 	@$(CC) $(CFLAGS) -c $< -o $@
 
 # ---- harness link rules -------------------------------------------------
+# conn_exec additionally observes what btls asks of OpenSSL (references from libxcm's objects only)
+WRAP_SSL := -Wl,--wrap=SSL_read -Wl,--wrap=SSL_write -Wl,--wrap=SSL_get_error
 $(B)/bin/conn_exec: $(B)/harness/conn_exec.o $(SHIM_OBJ) $(LIB_OBJ)
 	@mkdir -p $(dir $@)
-	@$(CC) $(SAN) -o $@ $^ $(WRAP) $(LDLIBS_REAL)
+	@$(CC) $(SAN) -o $@ $^ $(WRAP) $(WRAP_SSL) $(LDLIBS_REAL)
 
 $(B)/bin/est_exec: $(B)/harness/est_exec.o $(SHIM_OBJ) $(LIB_OBJ)
 	@mkdir -p $(dir $@)
